@@ -156,7 +156,8 @@ def check(run: Run, prog: Program, model: Model, tier: str) -> None:
         "the abstract location of its target (FRESH / FROZEN props state / CALLER parameter / SELF attribute); "
         "every value stored into Props is checked for un-copied caller-owned mutable containers; Props is "
         "checked to be copy-on-write and the module-level visitor singletons to be stateless. Under the stated "
-        "heap model this decides the property for every history of operations.")
+        "heap model this decides the property for every history of operations."
+        " Also: member reads on the validated mapping are dominated by a membership test (no __missing__), and no equality-keyed memoisation sits on the conversion path.")
     run.rule_text = ("one obligation per write site, per Props-construction argument, per Props method, per singleton class; "
                      "non-trivial = the target's origin needed alias tracking through locals, loop variables or callee summaries")
     run.trusted += ["writes happen only through: attribute/subscript store, del, augmented assignment, the listed mutating "
